@@ -8,14 +8,16 @@ git -C /repo worktree prune; git -C /repo worktree add -q --detach $R/repo HEAD
 rsync -a --exclude .build --exclude .git --exclude replays /verif/ $R/verif/
 sed -i "s|path = \"/repo|path = \"$R/repo|g" $R/verif/symx/Cargo.toml
 sed -i "s|/repo/incremental-map|$R/repo/incremental-map|g" $R/verif/kani/run_c18.py
-OUT=/verif/seeded/RESULTS.md
+OUT=${OUT:-/verif/seeded/RESULTS.md}
+# SEEDS_GLOB: which seeds to run (shell glob on the directory name, default all)
+SEEDS_GLOB=${SEEDS_GLOB:-*}
 # RESUME=1: keep the rows already in $OUT.tmp (an interrupted run) and only run the missing ones
 if [ -z "${RESUME:-}" ] || [ ! -f $OUT.tmp ]; then
 echo "# Seed regression ($(date -u +%FT%TZ), /repo $(git -C /repo log -1 --format=%h), /verif $(git -C /verif log -1 --format=%h))" > $OUT.tmp
 echo "| seed | check | exit | first violation |" >> $OUT.tmp; echo "|---|---|---|---|" >> $OUT.tmp
 fi
 cd $R/verif && ./setup.sh >/dev/null 2>&1
-for D in /verif/seeded/*/; do
+for D in /verif/seeded/$SEEDS_GLOB/; do
   S=$(basename $D); [ -f $D/meta.json ] || continue
   CHECKS=$(python3 -c "import json;m=json.load(open('$D/meta.json'));print(' '.join(c.split()[0] for c in m.get('checks_run',{}).get('caught_by',[])))")
   [ -n "$CHECKS" ] || continue
